@@ -317,6 +317,7 @@ type lexer struct {
 	width       int       // width of last rune read from input.
 	items       chan item // channel of scanned items.
 	doubleDelim bool      // flag for tags starting with double braces.
+	tagStart    ast.Pos   // start position of the tag being scanned, for errors.
 	lastEmit    item      // type of most recent item emitted
 }
 
@@ -441,6 +442,13 @@ func (l *lexer) errorf(format string, args ...interface{}) stateFn {
 	return nil
 }
 
+// errorfAt is errorf for a construct that begins at pos and is never closed:
+// the error is reported where the construct begins, not at the end of input.
+func (l *lexer) errorfAt(pos ast.Pos, format string, args ...interface{}) stateFn {
+	l.items <- item{itemError, pos, fmt.Sprintf(format, args...)}
+	return nil
+}
+
 // State functions ------------------------------------------------------------
 
 func maybeEmitText(l *lexer, backup int) {
@@ -514,6 +522,7 @@ func lexText(l *lexer) stateFn {
 // be used, so we differentiate them to match double closing braces later.
 // Double braces are also optional for other cases.
 func lexLeftDelim(l *lexer) stateFn {
+	l.tagStart = l.start
 	l.next() // read the first {
 	// check the next character to see if it's a double delimiter
 	if r := l.next(); r == '{' {
@@ -609,7 +618,7 @@ func lexInsideTag(l *lexer) stateFn {
 	case r == '=':
 		l.emit(itemEquals)
 	case r == eof:
-		return l.errorf("unclosed tag")
+		return l.errorfAt(l.tagStart, "unclosed tag")
 	case r == '|':
 		l.emit(itemPipe)
 	case isLetterOrUnderscore(r):
@@ -664,13 +673,14 @@ func lexNegative(l *lexer) stateFn {
 // - the parameter tokens and identifiers
 // '/**' has just been read.
 func lexSoyDoc(l *lexer) stateFn {
+	var docStart = l.start
 	l.emit(itemSoyDocStart)
 	var star = false
 	var startOfLine = true // ignoring whitespace and asterisks.
 	for {
 		var ch = l.next()
 		if ch == eof {
-			return l.errorf("unexpected eof when scanning soydoc")
+			return l.errorfAt(docStart, "unexpected eof when scanning soydoc")
 		}
 		if star && ch == '/' {
 			maybeEmitText(l, 2)
@@ -765,7 +775,7 @@ func lexBlockComment(l *lexer) stateFn {
 	for {
 		switch l.next() {
 		case eof:
-			return l.errorf("unclosed block comment")
+			return l.errorfAt(l.start, "unclosed block comment")
 		case '*':
 			star = true
 			continue
@@ -786,7 +796,7 @@ func stringLexer(quoteChar rune) stateFn {
 		for {
 			switch l.next() {
 			case eof:
-				return l.errorf("unexpected eof while scanning string")
+				return l.errorfAt(l.start, "unexpected eof while scanning string")
 			case '\\':
 				l.next() // skip escape sequences
 			case quoteChar:
@@ -892,7 +902,7 @@ func lexHeaderParam(l *lexer) stateFn {
 	var lastNonSpace = l.pos
 	for ch := l.next(); ch != '=' && ch != '}' ; ch = l.next() {
 		if ch == eof {
-			return l.errorf("unclosed tag")
+			return l.errorfAt(l.tagStart, "unclosed tag")
 		}
 		if !isSpace(ch) {
 			lastNonSpace = l.pos
@@ -914,7 +924,7 @@ func lexCss(l *lexer) stateFn {
 	l.ignore()
 	for ch := l.next(); ch != '}'; ch = l.next() {
 		if ch == eof {
-			return l.errorf("unclosed tag")
+			return l.errorfAt(l.tagStart, "unclosed tag")
 		}
 	}
 	l.backup()
@@ -953,7 +963,7 @@ func lexLiteral(l *lexer) stateFn {
 	}
 	var i = strings.Index(l.input[l.pos:], expectClose)
 	if i == -1 {
-		return l.errorf("unclosed literal")
+		return l.errorfAt(l.tagStart, "unclosed literal")
 	}
 	l.pos += ast.Pos(i)
 
